@@ -147,8 +147,14 @@ def run_batch(check, tier, base, nruns, wall, nworkers, scratch, first=0):
 
 # ------------------------------------------------------------------ minimisation
 
+_warm = set()
+
+
 def _fires(check, case, tape, sig):
     from sim import harness
+    if check.ID not in _warm:
+        _warm.add(check.ID)
+        harness.execute(check, check.warmup_case(), seed=1)
     res = harness.execute(check, case, replay=tape)
     if res['harness_error']:
         return None
@@ -359,7 +365,10 @@ def run_check(pid, tier, args):
     os.makedirs(scratch, exist_ok=True)
     try:
         records, problems = run_batch(check, tier, base, nruns, wall, nworkers, scratch, args.first)
-        known = load_known()
+        if args.dump_digests:
+            with open(args.dump_digests, 'w', encoding='utf-8') as f:
+                json.dump({str(r['i']): r['digest'] for r in records}, f)
+        known = [] if args.ignore_known else load_known()
         by_sig = {}
         harness_errors = []
         for r in records:
@@ -446,6 +455,9 @@ def main(argv=None):
     ap.add_argument('--no-minimise', action='store_true')
     ap.add_argument('--min-seconds', type=float, default=90)
     ap.add_argument('--max-report', type=int, default=4)
+    ap.add_argument('--dump-digests')
+    ap.add_argument('--ignore-known', action='store_true',
+                    help='treat known findings as new (to regenerate their replay files)')
     args = ap.parse_args(argv)
     pin_environment()
     if VERIF not in sys.path:
